@@ -2,18 +2,50 @@
 (***************************************************************************)
 (* Declarative semantics of lena.core.Split.run over tagged harness        *)
 (* branches (see Split.tla for the vocabulary).  No constants or           *)
-(* variables: shared by Split.tla, SplitCT.tla and Trace_Split.tla.        *)
+(* variables: shared by Split.tla, SplitCT.tla and Trace_Split.tla (and    *)
+(* RunSem.tla, which uses BlocksOf).                                       *)
+(*                                                                         *)
+(* A branch kind is a record                                               *)
+(*   t     "src" | "fc" | "fr" | "map" | "filt" | "seq" | "nest"           *)
+(*   stop  fill kinds: LenaStopFill on fill attempt stop+1 (None: never)   *)
+(*   m     number of results of one call/compute/request; None = the one   *)
+(*         result without an index (fill kinds), Sources: default 2        *)
+(*   form  how the branch is handed to Split (_get_seq_with_type,          *)
+(*         check_sequence_type):                                           *)
+(*           "el"    the bare element (a Source object for "src")          *)
+(*           "tup"   a one-element tuple (el,)                             *)
+(*           "obj"   an explicit lena object: FillComputeSeq(el),          *)
+(*                   FillRequestSeq(el, ..), Sequence(el); for "src" a     *)
+(*                   Source with a tail element that retags "s" -> "st"    *)
+(*           "pp"    a tuple (pre, el, post): pre maps v -> v + 100,       *)
+(*                   post retags every result k -> k"p"                    *)
+(*           "sl"    fill kinds with a stop: (Slice(stop), el): the        *)
+(*                   LenaStopFill comes from the fill_into element         *)
+(*           "attr"  run kinds: the element carries a NON-callable data    *)
+(*                   attribute fill (and callable compute, request)        *)
+(*           "attr2" run kinds: a callable fill and NON-callable data      *)
+(*                   attributes compute, request                           *)
+(*           "sub"   "src": an instance of a subclass of Source            *)
+(*           "fct"   "src": Source(gen, extract, fill/compute element):    *)
+(*                   a Source that contains a fill/compute element is      *)
+(*                   still a Source; yields one Tag(b,"c",<<1..m>>)        *)
+(*   sub, ibs  t = "nest": the branch is itself a Split of the kinds sub   *)
+(*         with bufsize ibs (tags of inner branch j of branch b: 10*b+j)   *)
 (***************************************************************************)
 EXTENDS Integers, Sequences, FiniteSets, TLC, Json
 
 None == -1000
 Tag(b, kind, payload) == [b |-> b, k |-> kind, p |-> payload]
-Src == [t |-> "src", stop |-> None]
-FC(s) == [t |-> "fc", stop |-> s]
-FR(s) == [t |-> "fr", stop |-> s]
-MapK == [t |-> "map", stop |-> None]
-FiltK == [t |-> "filt", stop |-> None]
-SeqK == [t |-> "seq", stop |-> None]
+KindRec(t, stop, m, form, sub, ibs) == [t |-> t, stop |-> stop, m |-> m, form |-> form, sub |-> sub, ibs |-> ibs]
+Src == KindRec("src", None, 2, "el", <<>>, None)
+FC(s) == KindRec("fc", s, None, "el", <<>>, None)
+FR(s) == KindRec("fr", s, None, "el", <<>>, None)
+MapK == KindRec("map", None, None, "el", <<>>, None)
+FiltK == KindRec("filt", None, None, "el", <<>>, None)
+SeqK == KindRec("seq", None, None, "el", <<>>, None)
+WithForm(kd, f) == [kd EXCEPT !.form = f]
+WithM(kd, m) == [kd EXCEPT !.m = m]
+Nest(sub, ibs) == KindRec("nest", None, None, "el", sub, ibs)
 
 KindsQuick == {Src, FC(None), FC(0), FC(1), FC(2), FC(3), FR(None), FR(0), FR(1), FR(2), MapK, FiltK, SeqK}
 KindsSmall == {Src, FC(None), FC(1), FR(None), FR(1), MapK, SeqK}
@@ -24,21 +56,56 @@ Iota(m) == [j \in 1..m |-> j - 1]
 Min(a, b) == IF a < b THEN a ELSE b
 
 (***************************************************************************)
+(* Classification (split.py _get_seq_with_type): what the scheduler does   *)
+(* with a branch.  A nested Split whose branches are all fill/compute      *)
+(* (fill/request) offers fill and compute (request) and is therefore a     *)
+(* fill/compute (fill/request) branch; any other Split is a run element.   *)
+(***************************************************************************)
+ClassOf(kd) ==
+  CASE kd.t = "src" -> "src" [] kd.t = "fc" -> "fc" [] kd.t = "fr" -> "fr"
+    [] kd.t = "nest" -> (IF kd.sub # <<>> /\ \A j \in 1..Len(kd.sub) : kd.sub[j].t = "fc" THEN "fc"
+                         ELSE IF kd.sub # <<>> /\ \A j \in 1..Len(kd.sub) : kd.sub[j].t = "fr" THEN "fr"
+                         ELSE "run")
+    [] OTHER -> "run"
+\* no state is kept between invocations (two runs of one object may be interleaved)
+StatelessKind(kd) == IF kd.t = "nest" THEN \A j \in 1..Len(kd.sub) : kd.sub[j].t \in {"src", "map", "filt", "seq"}
+                     ELSE kd.t \in {"src", "map", "filt", "seq"}
+
+(***************************************************************************)
 (* What one invocation of a branch yields.                                 *)
 (***************************************************************************)
-SrcOut(b) == <<Tag(b, "s", <<1>>), Tag(b, "s", <<2>>)>>
+PreV(kd, v) == IF kd.form = "pp" THEN v + 100 ELSE v
+PreSeq(kd, vs) == [j \in 1..Len(vs) |-> PreV(kd, vs[j])]
+PostTag(k) == CASE k = "c" -> "cp" [] k = "r" -> "rp" [] k = "m" -> "mp" [] k = "f" -> "fp" [] k = "end" -> "endp" [] OTHER -> k
+KTag(kd, k) == IF kd.form = "pp" THEN PostTag(k) ELSE k
+SrcOutK(b, kd) ==
+  IF kd.form = "fct" THEN <<Tag(b, "c", [i \in 1..kd.m |-> i])>>
+  ELSE [i \in 1..kd.m |-> Tag(b, IF kd.form = "obj" THEN "st" ELSE "s", <<i>>)]
+SrcOut(b) == SrcOutK(b, Src)
 RECURSIVE Evens(_)
 Evens(vs) == IF vs = <<>> THEN <<>> ELSE (IF Head(vs) % 2 = 0 THEN <<Head(vs)>> ELSE <<>>) \o Evens(Tail(vs))
-SeqRun(b, kind, vs) ==
-  CASE kind.t = "map" -> [j \in 1..Len(vs) |-> Tag(b, "m", <<vs[j]>>)]
-    [] kind.t = "filt" -> LET e == Evens(vs) IN [j \in 1..Len(e) |-> Tag(b, "f", <<e[j]>>)]
-    [] kind.t = "seq" -> [j \in 1..Len(vs) |-> Tag(b, "m", <<vs[j]>>)] \o <<Tag(b, "end", <<Len(vs)>>)>>
+SeqRun(b, kind, vs0) ==
+  LET vs == PreSeq(kind, vs0) IN
+  CASE kind.t = "map" -> [j \in 1..Len(vs) |-> Tag(b, KTag(kind, "m"), <<vs[j]>>)]
+    [] kind.t = "filt" -> LET e == Evens(vs) IN [j \in 1..Len(e) |-> Tag(b, KTag(kind, "f"), <<e[j]>>)]
+    [] kind.t = "seq" -> [j \in 1..Len(vs) |-> Tag(b, KTag(kind, "m"), <<vs[j]>>)] \o <<Tag(b, KTag(kind, "end"), <<Len(vs)>>)>>
 \* fill the values vs into a collecting element that raises LenaStopFill on attempt stop+1
 RECURSIVE FillAll(_, _, _)
 FillAll(stop, s, vs) ==
   IF vs = <<>> THEN [filled |-> s.filled, nf |-> s.nf, stopped |-> FALSE]
   ELSE IF stop # None /\ s.nf >= stop THEN [filled |-> s.filled, nf |-> s.nf, stopped |-> TRUE]
   ELSE FillAll(stop, [filled |-> Append(s.filled, Head(vs)), nf |-> s.nf + 1], Tail(vs))
+\* results of compute() (k = "c") / request() (k = "r") of one element that holds the values *filled*
+ResultsOf(b, k, kd, filled) ==
+  IF kd.m = None THEN <<Tag(b, KTag(kd, k), PreSeq(kd, filled))>>
+  ELSE [i \in 1..kd.m |-> Tag(b, KTag(kd, k), <<i>> \o PreSeq(kd, filled))]
+RECURSIVE ConcatSub(_, _, _, _, _)
+ConcatSub(b, k, subs, filled, j) ==
+  IF j > Len(subs) THEN <<>> ELSE ResultsOf(10 * b + j, k, subs[j], filled) \o ConcatSub(b, k, subs, filled, j + 1)
+\* a fill branch: the element itself, or a nested Split of fill elements (all filled with the same values)
+FillResults(b, k, kd, filled) ==
+  IF kd.t = "nest" THEN ConcatSub(b, k, kd.sub, filled, 1) ELSE ResultsOf(b, k, kd, filled)
+Retag(o, b) == [j \in 1..Len(o) |-> [o[j] EXCEPT !.b = IF @ = 0 THEN 0 ELSE 10 * b + @]]
 
 (***************************************************************************)
 (* Declarative semantics.                                                  *)
@@ -48,25 +115,28 @@ BlocksOf(xs, b) == IF xs = <<>> THEN <<>>
                    ELSE IF b = None \/ Len(xs) <= b THEN <<xs>>
                    ELSE <<SubSeq(xs, 1, b)>> \o BlocksOf(SubSeq(xs, b + 1, Len(xs)), b)
 InitBst(bb) == [j \in 1..Len(bb) |-> [alive |-> TRUE, filled |-> <<>>, nf |-> 0]]
+RECURSIVE SplitSem(_, _, _)
+\* a run branch on one block: a plain Sequence, or a nested Split run on the block as its whole flow
+RunResults(b, kd, vs) == IF kd.t = "nest" THEN Retag(SplitSem(kd.sub, kd.ibs, vs), b) ELSE SeqRun(b, kd, vs)
 \* one block through branches j..Len(bb): [out, bst]
 RECURSIVE BlockSem(_, _, _, _)
 BlockSem(bb, bst, blk, j) ==
   IF j > Len(bb) THEN [out |-> <<>>, bst |-> bst]
   ELSE IF ~bst[j].alive THEN BlockSem(bb, bst, blk, j + 1)
-  ELSE LET kind == bb[j] IN
-    IF kind.t = "src" THEN
+  ELSE LET kind == bb[j]  cls == ClassOf(bb[j]) IN
+    IF cls = "src" THEN
        LET r == BlockSem(bb, [bst EXCEPT ![j].alive = FALSE], blk, j + 1)
-       IN [out |-> SrcOut(j) \o r.out, bst |-> r.bst]
-    ELSE IF kind.t = "fc" THEN
+       IN [out |-> SrcOutK(j, kind) \o r.out, bst |-> r.bst]
+    ELSE IF cls = "fc" THEN
        LET f == FillAll(kind.stop, bst[j], blk)
            r == BlockSem(bb, [bst EXCEPT ![j] = [alive |-> ~f.stopped, filled |-> f.filled, nf |-> f.nf]], blk, j + 1)
-       IN [out |-> (IF f.stopped THEN <<Tag(j, "c", f.filled)>> ELSE <<>>) \o r.out, bst |-> r.bst]
-    ELSE IF kind.t = "fr" THEN
+       IN [out |-> (IF f.stopped THEN FillResults(j, "c", kind, f.filled) ELSE <<>>) \o r.out, bst |-> r.bst]
+    ELSE IF cls = "fr" THEN
        LET f == FillAll(kind.stop, bst[j], blk)
            r == BlockSem(bb, [bst EXCEPT ![j] = [alive |-> ~f.stopped, filled |-> <<>>, nf |-> f.nf]], blk, j + 1)
-       IN [out |-> <<Tag(j, "r", f.filled)>> \o r.out, bst |-> r.bst]
+       IN [out |-> FillResults(j, "r", kind, f.filled) \o r.out, bst |-> r.bst]
     ELSE LET r == BlockSem(bb, bst, blk, j + 1)
-         IN [out |-> SeqRun(j, kind, blk) \o r.out, bst |-> r.bst]
+         IN [out |-> RunResults(j, kind, blk) \o r.out, bst |-> r.bst]
 RECURSIVE AllBlocks(_, _, _)
 AllBlocks(bb, bst, blocks) ==
   IF blocks = <<>> THEN [out |-> <<>>, bst |-> bst]
@@ -79,10 +149,10 @@ RECURSIVE FinalSem(_, _, _, _)
 FinalSem(bb, bst, wasEmpty, j) ==
   IF j > Len(bb) THEN <<>>
   ELSE (IF ~bst[j].alive THEN <<>>
-        ELSE CASE bb[j].t = "src" -> IF wasEmpty THEN SrcOut(j) ELSE <<>>
-               [] bb[j].t = "fc" -> <<Tag(j, "c", bst[j].filled)>>
-               [] bb[j].t = "fr" -> IF wasEmpty THEN <<Tag(j, "r", <<>>)>> ELSE <<>>
-               [] OTHER -> IF wasEmpty THEN SeqRun(j, bb[j], <<>>) ELSE <<>>)
+        ELSE CASE ClassOf(bb[j]) = "src" -> IF wasEmpty THEN SrcOutK(j, bb[j]) ELSE <<>>
+               [] ClassOf(bb[j]) = "fc" -> FillResults(j, "c", bb[j], bst[j].filled)
+               [] ClassOf(bb[j]) = "fr" -> IF wasEmpty THEN FillResults(j, "r", bb[j], <<>>) ELSE <<>>
+               [] OTHER -> IF wasEmpty THEN RunResults(j, bb[j], <<>>) ELSE <<>>)
        \o FinalSem(bb, bst, wasEmpty, j + 1)
 SplitSem(bb, b, xs) ==
   IF bb = <<>> THEN [j \in 1..Len(xs) |-> Tag(0, "id", <<xs[j]>>)]     \* the empty Split is the identity
@@ -91,5 +161,9 @@ SplitSem(bb, b, xs) ==
 
 RECURSIVE Proj(_, _)
 Proj(o, b) == IF o = <<>> THEN <<>> ELSE (IF Head(o).b = b THEN <<Head(o)>> ELSE <<>>) \o Proj(Tail(o), b)
+\* results of branch b including those of the inner branches of a nested Split
+OwnerOf(x) == IF x.b >= 10 THEN x.b \div 10 ELSE x.b
+RECURSIVE ProjO(_, _)
+ProjO(o, b) == IF o = <<>> THEN <<>> ELSE (IF OwnerOf(Head(o)) = b THEN <<Head(o)>> ELSE <<>>) \o ProjO(Tail(o), b)
 
 =============================================================================
